@@ -24,13 +24,20 @@ def nontrivial(req, obs):
         return any(d in ("i", "d", "n") for d in ds) and any(d in ("e", "l") for d in ds)
     if f[0] == "C11.cond":
         return len(f) > 2 and any(op in f[2].split(" ") for op in ("||", "&&", "==", "!=", "<", "<~", ">", ">~"))
+    if f[0] == "C11.raw":
+        # a conditional with a second group, and something that can be selected or skipped
+        t = "\t".join(f[2:])
+        return "if" in t and ("el" in t) and obs != "bad-request"
     return False
 
 
 def finding_key(req, obs, detail):
-    m = re.match(r"FAIL:(else-after-else|elif-after-else) accepted", detail or "")
+    m = re.match(r"FAIL:(else-after-else|elif-after-else|unterminated-in-include|unmatched-in-include) accepted", detail or "")
     if m:
         return m.group(1) + " accepted"
+    m = re.match(r"FAIL:(skipped-group [a-z-]+) rejected", detail or "")
+    if m:
+        return m.group(1) + " rejected"
     m = re.match(r"FAIL:panic ([^:]+):\d+: (.*)$", detail or "")
     if m:
         return "panic %s: %s" % (m.group(1), re.sub(r"\d+", "N", m.group(2)))
@@ -47,6 +54,22 @@ def shrink(req):
         ds = f[1].split(";")
         for i in range(len(ds)):
             yield "C11.run\t" + ";".join(ds[:i] + ds[i + 1:])
+    elif f[0] == "C11.raw" and len(f) > 2:
+        # drop one included file, one API define, or one physical line of one file
+        for k in range(3, len(f)):
+            yield "\t".join(f[:k] + f[k + 1:])
+        if f[1]:
+            defs = f[1].split(",")
+            for i in range(len(defs)):
+                yield "\t".join([f[0], ",".join(defs[:i] + defs[i + 1:])] + f[2:])
+        for k in range(2, len(f)):
+            name, sep, body = ("", "", f[k]) if k == 2 else f[k].partition("=")
+            lines = re.split(r"(?<=\\n)", body)
+            lines = [x for x in lines if x]
+            if len(lines) > 60:
+                continue
+            for i in range(len(lines)):
+                yield "\t".join(f[:k] + [name + sep + "".join(lines[:i] + lines[i + 1:])] + f[k + 1:])
     elif f[0] == "C11.cond" and len(f) > 2:
         toks = f[2].split(" ")
         for i in range(len(toks)):
